@@ -85,6 +85,7 @@ class V:
     def __init__(self, s, t, lo=None, hi=None, n=None, ltlen=(), elo=None, ehi=None, rec=None):
         self.s, self.t, self.lo, self.hi, self.n, self.ltlen = s, t, lo, hi, n, frozenset(ltlen)
         self.elo, self.ehi, self.rec = elo, ehi, rec
+        self.static = None            # a module-level Bool constant whose value CPython has computed (PY3)
     def widen(self):
         return V(self.s, self.t, None, None, self.n, (), None, None, self.rec)
 
@@ -165,6 +166,14 @@ class Module:
                 hits += 1
         return hits == 1 and good
 
+    def version_test(self, e):
+        """`sys.version_info <cmp> (INT, …)` where `sys` is exactly the standard module"""
+        return (isinstance(e, ast.Compare) and len(e.ops) == 1 and isinstance(e.ops[0], (ast.Gt, ast.GtE, ast.Lt, ast.LtE))
+                and isinstance(e.left, ast.Attribute) and e.left.attr == "version_info"
+                and isinstance(e.left.value, ast.Name) and e.left.value.id == "sys" and self.imported("sys", "sys")
+                and isinstance(e.comparators[0], ast.Tuple) and e.comparators[0].elts
+                and all(isinstance(x, ast.Constant) and type(x.value) is int for x in e.comparators[0].elts))
+
     def constant(self, name, where):
         """module-level `NAME = <int expression | list of int expressions>`; exactly one binding"""
         if name in self.consts:
@@ -203,6 +212,18 @@ class Module:
             if isinstance(n, ast.Attribute) and isinstance(n.value, ast.Name) and n.value.id == name:
                 raise TranslationError("%s: a method / attribute of module-level %r is used at line %d (it may be mutated): "
                                        "not a constant" % (where, name, n.lineno))
+        if self.version_test(node.value):
+            # `sys.version_info <cmp> (ints…)`: a closed expression, evaluated by the CPython that runs the translator
+            import sys as _sys
+            val = bool(eval(compile(ast.Expression(node.value), "<const>", "eval"), {"__builtins__": {}, "sys": _sys}))
+            text = "/-- module constant, line %d: `%s` — evaluated by the CPython running the translator (%d.%d): %s -/\ndef %s : Bool := %s" % (
+                node.lineno, self.segment(node).replace("\n", " "), _sys.version_info[0], _sys.version_info[1], val,
+                lname(name), "true" if val else "false")
+            out = V(lname(name), BOOL)
+            out.static = val
+            self.consts[name] = (text, out)
+            self.const_order.append(name)
+            return out
         fn = Fn(self, None, {"name": name}, const=True)
         v = fn.expr(node.value, {})
         if fn.pre:
@@ -488,6 +509,10 @@ class Fn:
                 return "True"
             self.err(e, "isinstance on anything but a parameter declared with that class")
         v = self.expr(e, env)
+        if v.t == BOOL and isinstance(e, ast.Name) and v.static is not None:
+            self.notes.append("the module constant %s is %s (evaluated by the CPython running the translator); the branch "
+                              "for the other value is not translated" % (e.id, v.static))
+            return "True" if v.static else "False"
         if v.t == BOOL:
             return "(%s = true)" % v.s
         if v.t == INT:
@@ -562,7 +587,7 @@ class Fn:
         if e.keywords:
             self.err(e, "keyword arguments are not in the subset")
         name = f.id if isinstance(f, ast.Name) else None
-        if name in ("len", "int", "pow", "bytes", "bytearray", "sum", "reduce", "Decimal", "isinstance", "range"):
+        if name in ("len", "int", "pow", "bytes", "bytearray", "sum", "reduce", "Decimal", "isinstance", "range", "tuple", "list"):
             if name in self.locals or name in env or (name not in ("reduce", "Decimal") and self.mod.binds(name)):
                 self.err(e, "the name %s is re-bound in this function or module: the call is not the built-in" % name)
         if name == "len" and len(e.args) == 1:
@@ -630,6 +655,11 @@ class Fn:
             if a.t in (BYTES, BYTEARRAY):
                 return V(a.s, BYTES if name == "bytes" else BYTEARRAY, n=a.n)
             self.err(e, "%s() of %s" % (name, a.t))
+        if name in ("tuple", "list") and len(e.args) == 1:
+            a = self.expr(e.args[0], env)
+            if a.t != INTS:
+                self.err(e, "%s() of %s" % (name, a.t))
+            return V(a.s, INTS, n=a.n, elo=a.elo, ehi=a.ehi)          # a new object with the same items
         if name in ("bytes", "bytearray") and not e.args:
             return V("([] : Bytes)", BYTES if name == "bytes" else BYTEARRAY, n=0)
         if name == "sum" and len(e.args) == 1:
@@ -856,6 +886,11 @@ class Fn:
     def varname(self, key):
         return lname(key.replace(".", "_"))
 
+    @staticmethod
+    def is_append(e):
+        return (isinstance(e, ast.Call) and isinstance(e.func, ast.Attribute) and e.func.attr == "append"
+                and isinstance(e.func.value, ast.Name))
+
     def assigned(self, stmts, env):
         """names (or `obj.attr` keys) assigned anywhere in the statements, in order of first appearance"""
         out = []
@@ -883,6 +918,8 @@ class Fn:
                     tgt(n.target)
                 elif isinstance(n, ast.For):
                     tgt(n.target)
+                elif isinstance(n, ast.Expr) and self.is_append(n.value):
+                    tgt(n.value.func.value)
                 elif isinstance(n, (ast.NamedExpr, ast.With, ast.Try, ast.FunctionDef, ast.ClassDef,
                                     ast.Global, ast.Nonlocal, ast.Delete, ast.Import, ast.ImportFrom)):
                     self.err(n, "%s is not in the subset" % type(n).__name__)
@@ -906,6 +943,28 @@ class Fn:
             return self.block(rest, env, k)           # docstring
         if isinstance(s, ast.Pass):
             return self.block(rest, env, k)
+        if isinstance(s, ast.Expr) and self.is_append(s.value):
+            # `t.append(e)` on a list of ints created in this function and not aliased: t = t + [e]
+            call = s.value
+            key = call.func.value.id
+            if key not in env:
+                self.err(s, "append to unbound %s" % key)
+            seq = env[key]
+            if seq.t != INTS:
+                self.err(s, "append on %s is not in the subset" % seq.t)
+            if "append" in self.locals:
+                self.err(s, "the name append is bound in this function")
+            self.need_own(s, key, env)
+            if len(call.args) != 1 or call.keywords:
+                self.err(s, "append takes exactly one argument")
+            v = self.expr(call.args[0], env)
+            if v.t != INT:
+                self.err(s, "append of %s to a list of ints" % v.t)
+            known = seq.n is not None and seq.n > 0
+            nv = V("(%s ++ [%s])" % (seq.s, v.s), INTS, n=None if seq.n is None else seq.n + 1,
+                   elo=v.lo if seq.n == 0 else _min(seq.elo, v.lo), ehi=v.hi if seq.n == 0 else _max(seq.ehi, v.hi))
+            text = self.bind(key, nv, env)
+            return self.flush(text) + self.block(rest, env, k)
         if isinstance(s, ast.Return):
             if self.loop:
                 self.err(s, "return inside a loop is not in the subset")
@@ -966,7 +1025,9 @@ class Fn:
                 src = value_node.id
             elif isinstance(value_node, ast.Attribute) and isinstance(value_node.value, ast.Name):
                 src = value_node.value.id + "." + value_node.attr
-            if src is None and not isinstance(value_node, (ast.Subscript, ast.IfExp)):
+            is_tuple = isinstance(value_node, ast.Tuple) or (isinstance(value_node, ast.Call) and isinstance(value_node.func, ast.Name)
+                                                             and value_node.func.id == "tuple")
+            if src is None and not isinstance(value_node, (ast.Subscript, ast.IfExp)) and not is_tuple:
                 o.add(key)            # a new object: list display, [c] * n, bytearray(...), a call result, a slice copy
             elif src is not None:
                 o.discard(src)        # two names for one object: neither may be mutated from here on
@@ -1037,8 +1098,14 @@ class Fn:
                 return text + self.block(rest, env, k)
             if seq.t != INTS:
                 self.err(s, "item assignment on %s is not in the subset" % seq.t)
-            i = self.expr(target.slice, env)
-            v = self.expr(value, env)
+            if op is None:
+                v = self.expr(value, env)          # Python evaluates the right-hand side first, then the index expression
+                i = self.expr(target.slice, env)
+            else:
+                i = self.expr(target.slice, env)
+                v = self.expr(value, env)
+            if i.t != INT:
+                self.err(s, "index of type %s" % i.t)
             if op is not None:
                 if not self.safe_index(seq, target.value, i):
                     self.err(s, "cannot show that index %s is in range for %s[...] %s=" % (i.s, key, type(op).__name__))
@@ -1047,7 +1114,11 @@ class Fn:
             if v.t != INT:
                 self.err(s, "item assignment of %s" % v.t)
             if not self.safe_index(seq, target.value, i):
-                self.err(s, "cannot show that index %s is in range for the assignment to %s[...] (IndexError)" % (i.s, key))
+                # Python's rules: a negative index counts from the end, otherwise IndexError
+                r = self.hoist(s, "Py.setItem %s %s %s" % (seq.s, i.s, v.s), INTS, n=seq.n, elo=_min(seq.elo, v.lo),
+                               ehi=_max(seq.ehi, v.hi))
+                text = self.flush("") + self.bind(key, r, env)
+                return text + self.block(rest, env, k)
             nv = V("(Py.setAt %s %s %s)" % (seq.s, i.s, v.s), INTS, n=seq.n, elo=_min(seq.elo, v.lo), ehi=_max(seq.ehi, v.hi))
             text = self.bind(key, nv, env)
             return self.flush(text) + self.block(rest, env, k)
@@ -1111,6 +1182,8 @@ class Fn:
     def if_stmt(self, s, rest, env, k):
         c = self.cond(s.test, env)
         pre = self.flush("")
+        if c == "True" and isinstance(s.test, ast.Name):
+            return pre + self.block(list(s.body) + rest, env, k)      # static module constant (noted by `cond`)
         if c == "True":
             # statically true test (isinstance of a declared parameter): only the body exists
             if s.orelse:
@@ -1120,6 +1193,8 @@ class Fn:
                 self.notes.append("the implicit `return None` when the test at line %d is false is unreachable under "
                                   "the declared parameter classes" % s.lineno)
             return pre + self.block(list(s.body) + rest, env, k)
+        if c == "False":
+            return pre + self.block(list(s.orelse) + rest, env, k)
         if self.has_exit(s.body) or self.has_exit(s.orelse):
             if self.loop and self.has_exit(s.body + s.orelse, returns_only=True):
                 self.err(s, "return inside a loop is not in the subset")
@@ -1143,12 +1218,14 @@ class Fn:
             return "(.ok %s)" % t if False else t
         # the branches are pure blocks when nothing in them raises; otherwise the whole `if` is monadic
         saved = self.monadic
+        g0 = self.guard
         try:
             self.monadic = False
             a = self.block(list(s.body), env, kk)
             b = self.block(list(s.orelse), env, kk)
             mon = False
         except NeedMonad:
+            self.guard = g0               # the exception may have left a conditional position half-way
             if not saved:
                 self.monadic = saved
                 raise
@@ -1287,6 +1364,7 @@ class Fn:
                     self.err(s, "loop changes the type of %s" % n)
             return self.tuple_of(state, e2)
         saved = self.monadic
+        g0 = self.guard
         self.loop += 1
         try:
             try:
@@ -1294,6 +1372,7 @@ class Fn:
                 body = self.block(list(s.body), benv, kk)
                 mon = False
             except NeedMonad:
+                self.guard = g0
                 if not saved:
                     raise
                 self.monadic = True
@@ -1342,8 +1421,13 @@ class Fn:
                 self.err(n, "%s inside a while loop is not in the subset" % type(n).__name__)
         if "fuel" not in self.spec:
             self.err(s, "while loop: the SRC entry declares no `fuel` (an int expression bounding the number of iterations)")
-        if self.loop:
-            self.err(s, "a while loop nested in another loop is not in the subset")
+        fuel_src = self.spec["fuel"]
+        if not isinstance(fuel_src, str):
+            # several loops: one expression per `while`, in source order
+            whiles = sorted([n for n in ast.walk(self.node) if isinstance(n, ast.While)], key=lambda n: (n.lineno, n.col_offset))
+            if len(fuel_src) != len(whiles):
+                self.err(s, "the SRC entry declares %d `fuel` expressions for %d while loops" % (len(fuel_src), len(whiles)))
+            fuel_src = fuel_src[[id(n) for n in whiles].index(id(s))]
         if not self.monadic:
             raise NeedMonad()
         asg = self.assigned(s.body, env)
@@ -1351,7 +1435,7 @@ class Fn:
         if not state:
             self.err(s, "while loop assigns no variable that is live before it")
         try:
-            fuel = self.expr(ast.parse(self.spec["fuel"], mode="eval").body, env)
+            fuel = self.expr(ast.parse(fuel_src, mode="eval").body, env)
         except SyntaxError:
             self.err(s, "the `fuel` of the SRC entry is not a Python expression")
         if fuel.t != INT or self.pre:
@@ -1377,19 +1461,30 @@ class Fn:
                         self.err(s, "loop changes the type of %s" % n)
                 return self.tuple_of(state, e2)
             saved = self.monadic
+            g0 = self.guard
             self.loop += 1
             try:
-                self.monadic = False
-                self.guard += 1
                 try:
-                    c = self.cond(s.test, benv)
+                    # first as a pure loop (nothing in the condition or the body can raise) …
+                    self.monadic = False
+                    c = "decide %s" % self.cond(s.test, benv)
                     body = self.block(list(s.body), benv, kk)
+                    mon = False
                 except NeedMonad:
-                    self.err(s, "an operation that can raise inside a while loop is not in the subset")
+                    # … otherwise condition and body are R-valued (`Py.whileLoopM`); `and` / `or` in the condition
+                    # short-circuit explicitly, so a raising operand is evaluated exactly when Python evaluates it
+                    self.guard = g0
+                    self.fresh, self.names = snap[0], set(snap[1])
+                    del self.notes[snap[2]:]
+                    del ends[:]
+                    self.pre = []
+                    self.monadic = True
+                    c = self.condM(s.test, benv)
+                    body = self.block(list(s.body), benv, lambda e2: "(.ok %s)" % kk(e2))
+                    mon = True
             finally:
                 self.monadic = saved
                 self.loop -= 1
-                self.guard -= 1
             bad = {n for n in keep if ends[0][n].lo is None or ends[0][n].lo < env[n].lo}
             if not bad:
                 break
@@ -1407,19 +1502,44 @@ class Fn:
         st_in = self.tmp("st") if len(state) > 1 else env[state[0]].s
         unpack = self.unpack_tuple(st_in, state, env)
         st_out = self.tmp("st") if len(state) > 1 else st_in
-        text = pre + "(Py.whileLoop (fun (%s : %s) =>\n%s) (fun (%s : %s) =>\n%s) (Int.toNat %s) %s : R (%s)) >>= fun %s =>\n" % (
-            st_in, ty, indent(unpack + "decide %s" % c), st_in, ty, indent(unpack + body), fuel.s,
+        text = pre + "(Py.%s (fun (%s : %s) =>\n%s) (fun (%s : %s) =>\n%s) (Int.toNat %s) %s : R (%s)) >>= fun %s =>\n" % (
+            "whileLoopM" if mon else "whileLoop", st_in, ty, indent(unpack + c), st_in, ty, indent(unpack + body), fuel.s,
             self.tuple_of(state, env), ty, st_out)
         text += self.unpack_tuple(st_out, state, env2)
         self.notes.append("the while loop at line %d runs for at most `%s` iterations (SRC entry); if it has not stopped by "
-                          "then the result is Err.fuel" % (s.lineno, self.spec["fuel"]))
+                          "then the result is Err.fuel" % (s.lineno, fuel_src))
         return text + self.block(rest, env2, k)
+
+    def condM(self, e, env):
+        """Lean text of type `R Bool` for a condition whose operands can raise; `a and b` evaluates `b` only when `a` is
+        true, `a or b` only when `a` is false (Python's short-circuit rule)"""
+        if isinstance(e, ast.BoolOp):
+            is_and = isinstance(e.op, ast.And)
+            out = None
+            for x in reversed(e.values):
+                if out is None:
+                    out = self.condM(x, env)
+                    continue
+                if isinstance(x, ast.BoolOp):
+                    inner = self.condM(x, env)
+                    b = self.tmp("c")
+                    out = "(%s) >>= fun (%s : Bool) =>\nif %s = true then (\n%s) else (\n%s)" % (
+                        inner, b, b, indent(out if is_and else "(.ok true)"), indent("(.ok false)" if is_and else out))
+                else:
+                    c = self.cond(x, env)
+                    out = self.flush("if %s then (\n%s) else (\n%s)" % (
+                        c, indent(out if is_and else "(.ok true)"), indent("(.ok false)" if is_and else out)))
+            return out
+        c = self.cond(e, env)
+        return self.flush("(.ok (decide %s))" % c)
 
     @staticmethod
     def whole_assigned(stmts, key):
         for st in stmts:
             for n in ast.walk(st):
                 tg = []
+                if isinstance(n, ast.Expr) and Fn.is_append(n.value) and n.value.func.value.id == key:
+                    return True           # append changes the length
                 if isinstance(n, ast.Assign):
                     tg = n.targets
                 elif isinstance(n, (ast.AugAssign, ast.AnnAssign)):
